@@ -14,7 +14,7 @@ class Check(common.Check):
         'removed_counter_counts_tombstones', 'drain_refines',
         'scheduler_refines', 'scheduler_sorted_one_entry_per_key', 'scheduler_pop_is_head',
         'scheduler_add_replaces_key', 'retime_keeps_queue_order', 'retime_same_tasks',
-        'score_listing', 'score_sorted_each_once', 'score_fifo')]
+        'score_listing', 'score_sorted_each_once', 'score_fifo', 'ppar_refines')]
     N_QUICK = 1000
     N_THOROUGH = 60000
     ASSUMPTIONS = ['heapq implements a priority queue under Python list comparison (trusted)',
@@ -106,10 +106,21 @@ class Check(common.Check):
         ntimes, ncont = rng.randint(1, 4), rng.randint(1, 3)
         n = rng.choice([rng.randint(0, 5), rng.randint(3, 25)])
         adds = [[8 * rng.randrange(ntimes), rng.randrange(ncont)] for _ in range(n)]
+        # bundles the encoder refuses (content -1), often later than everything accepted
+        for _ in range(rng.choice([0, 0, 1, 2])):
+            adds.insert(rng.randint(0, len(adds)), [8 * rng.choice([0, ntimes, ntimes + 3]), -1])
         return {'kind': 'score', 'adds': adds, 'tail': 8 * rng.choice([0, 0, 1, ntimes, ntimes + 2])}
+
+    def gen_ppar(self, rng):
+        """parallel pattern streams: 1-5 children with 1-6 deltas from a small set (zero deltas and
+        equal times frequent)"""
+        nch = rng.randint(1, 5)
+        ds = rng.choice([[0, 8], [0, 0, 8, 4], [0, 4, 8, 12], [8], [0, 1, 2, 8]])
+        return {'kind': 'ppar', 'rem': [[rng.choice(ds) for _ in range(rng.randint(1, 6))] for _ in range(nch)]}
 
     def gen(self, rng, n):
         cases = [self.gen_one(rng) for _ in range(n)]
+        cases += [self.gen_ppar(rng) for _ in range(max(60, n // 6))]
         cases += [self.gen_shutdown(rng) for _ in range(max(20, n // 8))]
         cases += [self.gen_sched(rng) for _ in range(max(60, n // 4))]
         cases += [self.gen_score(rng) for _ in range(max(40, n // 8))]
@@ -157,9 +168,11 @@ class Check(common.Check):
             lines.append('reset')
             if isinstance(ops, dict) and ops.get('kind') == 'sched':
                 lines.extend(self.sched_lines(ops))
+            elif isinstance(ops, dict) and ops.get('kind') == 'ppar':
+                lines.append('ppar ' + ' '.join(','.join(str(d) for d in ds) if ds else '-' for ds in ops['rem']))
             elif isinstance(ops, dict) and ops.get('kind') == 'score':
                 base = getattr(self, '_score_base', {}).get(ci, 0)
-                lines.append('score 0 ' + ' '.join(str(t) for t, _ in ops['adds']) + f' {ops["tail"] + base}')
+                lines.append('score 0 ' + ' '.join(str(t) for t, c in ops['adds'] if c >= 0) + f' {ops["tail"] + base}')
             elif isinstance(ops, dict):
                 lines.extend(f'add {p} {t}' for p, t in ops['adds'])
                 lines.append('drain ' + ' '.join(
@@ -178,16 +191,23 @@ class Check(common.Check):
         # a shutdown case prints one 'ok' per add and then the drain line; keep the drain line
         final = []
         for case, c in zip(cases, res):
-            if isinstance(case, dict) and case.get('kind') == 'sched':
+            if isinstance(case, dict) and case.get('kind') in ('sched', 'ppar'):
                 final.append(c)
             elif isinstance(case, dict) and case.get('kind') == 'score':
                 # entry identities -> what the entry carries
-                n = len(case['adds'])
+                acc = [a for a in case['adds'] if a[1] >= 0]
+                n = len(acc)
                 names = {0: 'root', n + 1: 'tail'}
-                names.update({i + 1: str(cont) for i, (_, cont) in enumerate(case['adds'])})
+                names.update({i + 1: str(cont) for i, (_, cont) in enumerate(acc)})
                 body = c[-1][len('listing ['):-1]
                 items = [x.strip('()').split(',') for x in body.split('),(')] if body else []
-                final.append(['listing [' + ','.join(f'({t},{names.get(int(i), "?")})' for t, i in items) + ']',
+                # `duration` = time of the latest entry (peek largest): before `finish` over root + adds,
+                # afterwards (asked twice) over everything listed
+                tail_t = [int(t) for t, i in items if int(i) == n + 1]
+                before = max([int(t) for t, i in items if int(i) != n + 1], default=0)
+                after = max([int(t) for t, i in items], default=0)
+                final.append(['listing [' + ','.join(f'({t},{names.get(int(i), "?")})' for t, i in items) + ']'
+                              + f' duration {before} {after} {after} refused {len(case["adds"]) - n}',
                               f'base {getattr(self, "_score_base", {}).get(len(final), 0)}'])
             elif isinstance(case, dict):
                 final.append([c[-1]])
@@ -279,13 +299,40 @@ class Check(common.Check):
             return {'what': 'output length mismatch', 'signature': 'sched:len'}
         return None
 
+    def oracle_ppar(self, case, out):
+        """reference merge: always the pending child with the earliest time, first (re)queued first
+        among equal times; an ended child costs one rest up to the next pending time"""
+        rem = [list(d) for d in case['rem']]
+        s = [(0, i, i) for i in range(len(rem))]       # (time, seq, child)
+        seq, now, evs = len(rem), 0, []
+        while s:
+            _, _, c = s.pop(0)
+            if rem[c]:
+                d = rem[c].pop(0)
+                s.append((now + d, seq, c)); seq += 1; s.sort()
+                nxt = s[0][0]
+                evs.append(f'{c}:{nxt - now}')
+                now = nxt
+            elif s:
+                nxt = s[0][0]
+                evs.append(f'r:{nxt - now}')
+                now = nxt
+        exp = 'merge ' + ' '.join(evs)
+        if out != [exp]:
+            return {'what': f'Ppar over children with deltas {case["rem"]} (1/8 s) yields `{out[0] if out else None}`; '
+                            f'time order with first-in-first-out among equal times gives `{exp}`',
+                    'signature': 'ppar:merge'}
+        return None
+
     def oracle_score(self, case, out):
         if len(out) != 2 or not out[1].startswith('base '):
             return {'what': f'score not produced: {out}', 'signature': 'score:error'}
         base = int(out[1].split()[1])
         out = out[:1]
-        entries = [(0, 'root')] + [(t, str(c)) for t, c in case['adds']] + [(case['tail'] + base, 'tail')]
+        entries = [(0, 'root')] + [(t, str(c)) for t, c in case['adds'] if c >= 0] + [(case['tail'] + base, 'tail')]
         exp = 'listing [' + ','.join(f'({t},{c})' for t, c in sorted(entries, key=lambda e: e[0])) + ']'   # stable
+        exp += f' duration {max(t for t, _ in entries[:-1])} {max(t for t, _ in entries)} {max(t for t, _ in entries)}'
+        exp += f' refused {sum(1 for _, c in case["adds"] if c < 0)}'
         if out != [exp]:
             return {'what': f'score lists {out[0] if out else None}; every added bundle once, by time, first in first out: {exp}',
                     'signature': 'score:listing'}
@@ -296,6 +343,8 @@ class Check(common.Check):
             return self.oracle_sched(ops, out)
         if isinstance(ops, dict) and ops.get('kind') == 'score':
             return self.oracle_score(ops, out)
+        if isinstance(ops, dict) and ops.get('kind') == 'ppar':
+            return self.oracle_ppar(ops, out)
         if isinstance(ops, dict):
             return self.oracle_shutdown(ops, out)
         s = []   # list of (prio, seq, task), kept sorted by (prio, seq)
@@ -335,6 +384,8 @@ class Check(common.Check):
             return any(o[0] == 'tempo' for o in ops['ops']) and any(o.startswith('woke [(') for o in out)
         if isinstance(ops, dict) and ops.get('kind') == 'score':
             return len(set(map(tuple, ops['adds']))) < len(ops['adds'])
+        if isinstance(ops, dict) and ops.get('kind') == 'ppar':
+            return len(ops['rem']) > 1 and any(0 in d for d in ops['rem'])
         if isinstance(ops, dict):
             return bool(ops['beh'])
         seen, re_add = set(), False
@@ -353,6 +404,7 @@ class Check(common.Check):
              'scheduler_cases': sum(1 for c in cases if isinstance(c, dict) and c.get('kind') == 'sched'),
              'scheduler_tempo_changes': sum(sum(1 for o in c['ops'] if o[0] == 'tempo') for c in cases
                                             if isinstance(c, dict) and c.get('kind') == 'sched'),
+             'ppar_cases': sum(1 for c in cases if isinstance(c, dict) and c.get('kind') == 'ppar'),
              'score_cases': sum(1 for c in cases if isinstance(c, dict) and c.get('kind') == 'score')}
         for ops, out in zip(cases, outs):
             if isinstance(ops, dict):
